@@ -90,10 +90,28 @@ def err_handling(body, call, _fate=None):
     if 'PROPAGATED' in k:
         return 'PROPAGATED', ''
     if 'MATCHED' in k:
+        # "the thing is not there" is an answer, not a failure: the edge taken when the kind of the error equals NotFound is a handled one
+        from ..analysis import slice_const_values, switch_targets_bool
+        absent = set()
+        for kc in body.calls(r'ErrorKind as std::cmp::PartialEq>::eq$'):
+            vals = [str(v) for a in kc.args for v in slice_const_values(body.unit, backslice(body, [a]))]
+            if not any(v.endswith('ErrorKind::NotFound') for v in vals) or not any(backslice(body, [a]).has_call(r'io::Error::kind$|Error::kind$') for a in kc.args):
+                continue
+            for (bbx, idx, what) in body.operand_uses(kc.dest[0]):
+                if what[0] == 'switch':
+                    tt, ft = switch_targets_bool(what[1])
+                    if tt is not None:
+                        absent.add(tt)
+
         # every path from an Err arm to a return must log the error or return an Err
         def handles(x):
+            if x in absent:
+                return True
             c = body.call_at(x)
             if c is not None and (c.matches(LOG_CALL) or (c.dest[0] == 0 and c.matches(r'FromResidual.*>::from_residual$'))):
+                return True
+            # the value returned is computed from the error (a helper that wraps it into the Err to return)
+            if c is not None and c.dest and c.dest[0] == 0 and not c.dest[1] and is_result_ty(c.dty) and any(k_.bb == call.bb for a_ in c.args for k_ in backslice(body, [a_]).calls):
                 return True
             for s_ in body.blocks[x]['stmts']:
                 if s_['p'][0] == 0 and not s_['p'][1] and s_['rv']['k'] == 'agg' and s_['rv'].get('variant') == 'Err':
